@@ -65,7 +65,7 @@ theorem afterAttrs_doneSrc (s : St α) : (afterAttrs c s).pc.doneSrc = true → 
 theorem closeBlock_doneSrc (s : St α) : (closeBlock c s).pc.doneSrc = true → s.destOpen = false := by
   unfold closeBlock; split
   · intro h; simp [Pc.doneSrc] at h
-  · exact closeDestPhase_doneSrc c s
+  · exact closeDestPhase_doneSrc c _
 
 theorem ioClose_doneSrc (s : St α) : (ioClose c s).pc.doneSrc = true → s.destOpen = false := by
   unfold ioClose; split
@@ -86,7 +86,7 @@ theorem nextMain_doneSrc (ops : List (Op α)) (s : St α) : (nextMain c ops s).p
   | cons op r ih =>
     cases op <;> unfold nextMain
     · split
-      · exact ioFail_doneSrc c s
+      · exact ioFail_doneSrc c _
       · exact ih s
     · split
       · exact ih s
@@ -141,7 +141,7 @@ theorem afterWrite_doneSrc (s : St α) : (afterWrite c s).pc.doneSrc = true → 
 theorem openDestErr_doneSrc (s : St α) : (openDestErr c s).pc.doneSrc = true → s.destOpen = false := by
   unfold openDestErr; split
   · intro h; simp [Pc.doneSrc] at h
-  · exact ioFail_doneSrc c s
+  · exact ioFail_doneSrc c _
 
 /-- landing pcs that are `post` are `doneSrc` -/
 theorem landing_post {p : Pc} (hl : p.landing = true) (hp : p.post = true) : p.doneSrc = true := by
